@@ -219,6 +219,23 @@ pub fn prop_c06_raw(raw: &[Vec<u8>]) -> String {
     // traced back to their source lines even if a line did not reach its parser as written (that is C05 / C10's subject,
     // but "the file without the rejected line decodes to the same result" is still this property)
     if calls.len() != full.log.len() {
+        // the lines that reached a parser are not the lines the framing hands on. On the pinned tree this never happens; when a
+        // REJECTED line is what makes later lines disappear (seed C06-q: a rejected bracketed line treated as an unknown section)
+        // it is this property that is violated: erase the rejected lines one at a time and see whether the result changes
+        for (k, (_, rej)) in full.log.iter().enumerate() {
+            if !*rej {
+                continue;
+            }
+            // the k-th call is the k-th handed-on line as long as nothing was lost before it
+            let Some(idx) = calls.get(k) else { break };
+            let mut without: Vec<&[u8]> = raw.iter().map(Vec::as_slice).collect();
+            without.remove(*idx);
+            if let Ok(m) = rosu_map::from_bytes::<Beatmap>(&without.join(&b'\n')) {
+                if dump_beatmap(&m) != full_dump {
+                    return format!("FAIL rejected line {idx} ({:?}) changes the result (and the lines after it did not reach their parser)", lines[*idx]);
+                }
+            }
+        }
         return "SKIP framing-mismatch (see C05)".to_owned();
     }
     let mut rejected = 0;
